@@ -1,4 +1,5 @@
 import Goat.Gen.Tables
+import Goat.Gen.Facts
 import Goat.Model.Pratt
 /-! The parser model instantiated with the tables regenerated from symbol.go / compiler.go. -/
 namespace Goat.Pratt
